@@ -721,8 +721,8 @@ impl Check for C09 {
 
     fn shard(&self, ctx: &mut ShardCtx) {
         grid(ctx);
-        let n_valid = ctx.tier.pick(1_500, 25_000);
-        let n_inj = ctx.tier.pick(4_000, 60_000);
+        let n_valid = ctx.tier.pick(5_000, 50_000);
+        let n_inj = ctx.tier.pick(14_000, 120_000);
         for profile in ["general", "scope"] {
             crate::prop::run(ctx, &format!("valid-{profile}"), n_valid, tape_strategy(600), |ctx, tape| {
                 case(ctx, tape, profile, None)
